@@ -3,6 +3,7 @@ use crate::frame::{Batch, CheckDef};
 use crate::chaos::Chaos;
 use crate::exhaust::Exhaustive;
 
+static E01: Exhaustive = Exhaustive { focus: "C01" };
 static E06: Exhaustive = Exhaustive { focus: "C06" };
 static E07: Exhaustive = Exhaustive { focus: "C07" };
 static E08: Exhaustive = Exhaustive { focus: "C08" };
@@ -14,10 +15,12 @@ static E13: Exhaustive = Exhaustive { focus: "C13" };
 static E14: Exhaustive = Exhaustive { focus: "C14" };
 static E15: Exhaustive = Exhaustive { focus: "C15" };
 static E16: Exhaustive = Exhaustive { focus: "C16" };
+static E17: Exhaustive = Exhaustive { focus: "C17" };
 static E19: Exhaustive = Exhaustive { focus: "C19" };
 
 pub fn exhaustive_for(p: &str) -> &'static Exhaustive {
     match p {
+        "C01" => &E01,
         "C06" => &E06,
         "C07" => &E07,
         "C08" => &E08,
@@ -29,11 +32,13 @@ pub fn exhaustive_for(p: &str) -> &'static Exhaustive {
         "C14" => &E14,
         "C15" => &E15,
         "C16" => &E16,
+        "C17" => &E17,
         _ => &E19,
     }
 }
 use crate::hist::Hist;
 
+static X01: Chaos = Chaos { focus: "C01" };
 static X06: Chaos = Chaos { focus: "C06" };
 static X07: Chaos = Chaos { focus: "C07" };
 static X08: Chaos = Chaos { focus: "C08" };
@@ -45,10 +50,12 @@ static X13: Chaos = Chaos { focus: "C13" };
 static X14: Chaos = Chaos { focus: "C14" };
 static X15: Chaos = Chaos { focus: "C15" };
 static X16: Chaos = Chaos { focus: "C16" };
+static X17: Chaos = Chaos { focus: "C17" };
 static X19: Chaos = Chaos { focus: "C19" };
 
 pub fn chaos_for(p: &str) -> &'static Chaos {
     match p {
+        "C01" => &X01,
         "C06" => &X06,
         "C07" => &X07,
         "C08" => &X08,
@@ -60,10 +67,12 @@ pub fn chaos_for(p: &str) -> &'static Chaos {
         "C14" => &X14,
         "C15" => &X15,
         "C16" => &X16,
+        "C17" => &X17,
         _ => &X19,
     }
 }
 
+pub static H01: Hist = Hist { name: "adversarial-history", focus: "C01" };
 static H06: Hist = Hist { name: "adversarial-history", focus: "C06" };
 static H08: Hist = Hist { name: "adversarial-history", focus: "C08" };
 static H09: Hist = Hist { name: "adversarial-history", focus: "C09" };
@@ -74,6 +83,7 @@ static H13: Hist = Hist { name: "exact-timer-history", focus: "C13" };
 pub static H14: Hist = Hist { name: "adversarial-history", focus: "C14" };
 static H15: Hist = Hist { name: "adversarial-history", focus: "C15" };
 static H16: Hist = Hist { name: "adversarial-history", focus: "C16" };
+pub static H17: Hist = Hist { name: "adversarial-history", focus: "C17" };
 static H19: Hist = Hist { name: "adversarial-history", focus: "C19" };
 
 const REAL: &str = "one real Foca instance (all of src/), the run's codec (hand-written strict codec, clean or dirty-on-full, bincode, postcard), SimHandler";
